@@ -117,7 +117,7 @@ PLAN = {
                 drivers=["forced", "run", "closure", "incr", "group", "afterincr", "pool1", "rerun"]),
     "C02": dict(quick=["kinds3q", "miss3q", "dis3q", "points3", "falsy3"],
                 thorough=["kinds3", "rules3", "miss3q", "dis3q", "points3", "falsy3", "shapes3", "ignore3"],
-                drivers=["forced", "run", "rerun"]),
+                drivers=["forced", "run", "rerun", "group"]),
     "C03": dict(quick=["faults3q", "faults3c", "elems3"], thorough=["faults3", "faults3b", "faults3c", "faults4", "rules3", "elems3full"],
                 drivers=["forced", "run"]),
     "C04": dict(quick=["lin4", "oog3", "arch3", "faultsP", "faultsX"], thorough=["lin4", "oog3", "arch3", "faultsP", "faultsX", "seeds3", "faults3q", "shapes3", "miss3q"],
@@ -396,6 +396,19 @@ def run(prop, tier):
     bycase = dict((c["id"], c) for c in cases)
     verdict = lib.Verdict(prop, tier)
     rejected_ids = dict((r["id"], r) for r in val["rejected"])
+    if prop == "C02":
+        # executions rejected for the order of their attempts (C01's clause) get a second look against the
+        # final broker: what the wrong order did to "invoked if and only if" is C02's to decide
+        again = []
+        for t in traces:
+            rj = rejected_ids.get(t["id"])
+            if rj and rj["clause"].startswith("DepsBefore") and len(again) < 2000:
+                again.append(dict(t, lenient=True))
+        if again:
+            val2 = lib.validate_traces("DrTrace", "DrTrace.cfg", again, jobs=2)
+            for r in val2["rejected"]:
+                if prop_of_clause(r["clause"]) == "C02":
+                    rejected_ids[r["id"]] = r
     nself = selftest(traces, rejected_ids, rng, 40 if tier == "quick" else 400)
     per_case = {}
     for t in traces:
